@@ -147,6 +147,25 @@ def cases_for(tier):
             a = s.rfind('\n', 0, a) + 1
             s = s[a:a + 2000]
         add('mut:%d' % i, mutate(r, s), 'exec' if r.random() < 0.8 else r.choice(modes), 'mutation')
+    # grammar-aware hostile targets: every statement form that binds/deletes x every nesting of target wrappers x leaves that are
+    # or are not targets (the checks of one layer must not trip over what another layer already rejected)
+    leaves = ['1', 'f()', 'a + b', '"s"', 'None', '...', 'lambda: 0', 'a if b else c', 'a.b', 'a[0]', 'a', '(yield)', '-a', 'a < b', '[x for x in y]', '{}', '()', '*a', '**a', 'not a', 'a and b', "b'x'", '1.5', 'True', '__debug__', '(a)', '[]']
+    wraps = ['%s', '*%s', '[%s]', '(%s,)', '(a, %s)', '[%s, a]', '*[%s]', '*(%s, a)', '(a, (b, %s))', '[*%s]', '(%s)', '%s, b', 'a, *%s', '(*%s, a)', '[[%s]]']
+    forms = ['%s = v\n', 'x = %s = v\n', 'del %s\n', 'for %s in v: pass\n', '[0 for %s in v]\n', '(0 for %s in v)\n', '{0: 1 for %s in v}\n', 'with v as %s: pass\n', '%s += 1\n', 'with v as a, w as %s: pass\n',
+             'for a in v:\n    for %s in w: pass\n', 'def f():\n    %s = v\n', 'class C:\n    del %s\n', 'lambda: [0 for %s in v]\n', 'try:\n    pass\nexcept E as %s:\n    pass\n', 'import m as %s\n', 'global %s\n', 'def f(%s): pass\n', 'def f(a=%s): pass\n']
+    k = 0
+    for fi, form in enumerate(forms):
+        for w1 in wraps:
+            for w2 in (wraps if tier == 'thorough' else wraps[:9]):
+                for leaf in leaves:
+                    if tier == 'quick' and (k * 7 + fi) % 5:   # quick: a fifth of the product (rotating with the form)
+                        k += 1
+                        continue
+                    k += 1
+                    inner = w2 % leaf
+                    if w2 != '%s' and w1 not in ('%s',) and ',' in inner and not inner.startswith(('(', '[')):
+                        inner = '(' + inner + ')'
+                    add('tgt:%d' % k, form % (w1 % inner), 'exec', 'hostile-target')
     for name, text in size_stress(tier):
         add('size:' + name, text, 'exec', 'size:' + re.sub(r'-\d+$', '', name), nodump=len(text) > 200000 or 'lambda' in name or 'nest-def' in name or 'nest-class' in name)
     return C
